@@ -647,6 +647,81 @@ func runC07(c *Ctx) {
 		}
 	}
 
+	// both handlers hand ProcessQueryParams what an error-reporting parser made of the raw query: never
+	// url.URL.Query() / url.ParseQuery with its error dropped, which silently lose the pairs they cannot parse
+	for _, fname := range []string{"createCompiledRouteHandler", "executeRoute"} {
+		f := c.fn(glyphCmd, fname)
+		if f == nil {
+			continue
+		}
+		for _, g := range withAnon(f) {
+			eachInstr(g, func(_ *ssa.BasicBlock, _ int, ins ssa.Instruction) {
+				call, ok := ins.(*ssa.Call)
+				if !ok || callName(call) != interpPath+".ProcessQueryParams" {
+					return
+				}
+				lossy := derivesFrom(call.Call.Args[0], func(v ssa.Value) bool {
+					cl, ok := v.(*ssa.Call)
+					return ok && callName(cl) == "net/url.URL.Query"
+				})
+				var parseErrs []ssa.Value
+				derivesFrom(call.Call.Args[0], func(v ssa.Value) bool {
+					if ex, ok := v.(*ssa.Extract); ok {
+						if cl, ok := ex.Tuple.(*ssa.Call); ok {
+							switch callName(cl) {
+							case interpPath + ".ExtractRawQueryParams", interpPath + ".parseRawQuery", "net/url.ParseQuery":
+								parseErrs = append(parseErrs, extractOf(cl, 1)...)
+							}
+						}
+					}
+					return false
+				})
+				c.ob("C07-R6", fnKey(g)+"#raw-query-from-an-error-reporting-parser", call.Pos(), !lossy && len(parseErrs) > 0, "the raw query parameters come from URL.Query(), which drops every pair it cannot parse (page=%zz, page=1;2) without an error: the declared typed parameter looks absent and the body runs with null / the default instead of the request being answered 4xx")
+				for _, er := range parseErrs {
+					for _, b := range g.Blocks {
+						for si, s2 := range b.Succs {
+							if !nonNilOnEdge(b, si, er) {
+								continue
+							}
+							// the parser's error may be merged with the converter's into one variable that is tested once:
+							// on the failure path that merged value is the parser's error, so its nil edge is not taken
+							merged := func(b2 *ssa.BasicBlock, si2 int) bool {
+								for _, ins2 := range b2.Instrs {
+									_ = ins2
+								}
+								iff := ifOf(b2)
+								if iff == nil {
+									return false
+								}
+								for _, blk := range g.Blocks {
+									for _, i3 := range blk.Instrs {
+										ph, ok := i3.(*ssa.Phi)
+										if !ok {
+											continue
+										}
+										has := false
+										for _, e := range ph.Edges {
+											if e == er {
+												has = true
+											}
+										}
+										if has && nilOnEdge(b2, si2, ph) {
+											return true
+										}
+									}
+								}
+								return false
+							}
+							q := &pathQuery{fn: g, cutEdge: merged, target: func(x ssa.Instruction) bool { return isCallTo(x, vmPath+".VM.Execute") }}
+							h, _ := q.from(s2, 0)
+							c.ob("C07-R6", fnKey(g)+"#unparsable-query-stops-before-body", call.Pos(), h == nil, "after the raw query failed to parse the body still runs")
+						}
+					}
+				}
+			})
+		}
+	}
+
 	// every supplied value reaches the converter: no filtering between the raw query and convertValue
 	if pq := c.mustFn("C07-R6", interpPkg, "ProcessQueryParams"); pq != nil {
 		rawLookup := func(v ssa.Value) bool {
